@@ -10,6 +10,7 @@ what they report, minimises + gates every violation, writes /verif/evidence/<id>
 Exit 2 = the machinery failed its own determinism gate (never reported as a property violation).
 """
 import collections
+import glob
 import hashlib
 import json
 import os
@@ -26,7 +27,7 @@ EVID = os.path.join(VERIF, "evidence")
 PLAN = {
     "C07": [("c07", 0, "plain", 1.0)],
     "C11": [("c11", 0, "asan", 0.8), ("c11", 0, "plain", 0.2)],
-    "C12": [("c12", 0, "tsan", 1.0)],
+    "C12": [("c12", 0, "tsan", 0.88), ("c12", 1, "tsan", 0.10), ("c12", 1, "drd", 0.02)],
     "C15": [("c15", 0, "plain", 1.0)],
     "C16": [("c16", 0, "plain", 0.5), ("c16", 1, "plain", 0.5)],
     "C18": [("c18", 0, "plain", 0.8), ("c12", 0, "tsan", 0.2)],
@@ -151,13 +152,16 @@ def classify_event(binary, world, variant, flavour, line):
     if kv.get("call") == "-2":
         op = "new/delete (object life cycle)"
     pc = int(kv.get("pc", 0))
-    fn, loc = symbolize(binary, [pc])[pc] if pc else ("(outside the main image: libc/runtime)", "?")
+    fn, loc = symbolize(binary.replace("world_drd", "world_plain"), [pc])[pc] if pc else ("(outside the main image: libc/runtime)", "?")
     extra = {"fn": fn, "loc": loc, "call": int(kv.get("call", -1)), "raw": " ".join(tok[3:])}
     if what == "TSANREP":
         pcs = [int(kv.get("pc0", 0)), int(kv.get("pc1", 0))]
         sy = symbolize(binary, pcs)
         return Finding(world, variant, flavour, run, seed, "race", "none", "data race reported by ThreadSanitizer before the run exhausted its wall-clock budget: %s (%s) vs %s (%s)" % (sy[pcs[0]][0], sy[pcs[0]][1], sy[pcs[1]][0], sy[pcs[1]][1]),
                        {"fns": [sy[p][0] for p in pcs], "locs": [sy[p][1] for p in pcs]})
+    if what == "DRDREP":
+        return Finding(world, variant, flavour, run, seed, "race", "none", "conflicting %s of size %s inside %s (%s) on caller-owned operand memory (buffer of task %s) that another thread's library call accesses without ordering (valgrind DRD; no happens-before between the tasks)" % (kv.get("acc"), kv.get("size"), kv.get("fn"), kv.get("loc"), kv.get("owner")),
+                       {"fns": [kv.get("fn", "?"), "operand-memory"], "locs": [kv.get("loc", "?")]})
     if what == "RACE-LIMIT":
         return Finding(world, variant, flavour, run, seed, "note", "?", "run ended after four race reports", {})
     if what == "TIMEOUT":
@@ -235,7 +239,7 @@ def replay_once(binary, path, extra_args=()):
     for line in r.stdout.split("\n"):
         if line.startswith("RESULT "):
             res = json.loads(line[7:])
-        elif line.startswith(("FAULT", "ASAN", "SIMRT-DEADLOCK", "TSANREP", "TIMEOUT", "RACE-LIMIT")):
+        elif line.startswith(("FAULT", "ASAN", "SIMRT-DEADLOCK", "TSANREP", "DRDREP", "TIMEOUT", "RACE-LIMIT")):
             events.append("EVENT run=-1 seed=0 " + line)
     return res, events, r.returncode
 
@@ -420,6 +424,9 @@ def main():
     print("VERIF_SEED=%d property=%s tier=%s runs=%d workers=%d" % (seed, prop, tier, total_runs, workers))
     t_start = time.time()
     load_opnames()
+    global REPLAYS
+    if os.path.realpath(repo) != "/repo":
+        REPLAYS = os.path.join(VERIF, "build", "replays_other")  # violations of another tree (seeded changes) are not /repo's
     os.makedirs(REPLAYS, exist_ok=True)
     os.makedirs(EVID, exist_ok=True)
     os.makedirs(os.path.join(REPLAYS, "tmp"), exist_ok=True)
@@ -514,6 +521,8 @@ def main():
         run_batch(binary, world, variant, fl, seed, first, n, w, thorough, collect)
         # determinism sample: the first runs again, other worker count; event-log hashes must be identical
         nd = min(n, 120 if not thorough else 1000)
+        if fl == "drd":
+            nd = min(n, 48 if not thorough else 200)
         before = dict(loghash)
 
         def collect2(kind, payload, world=world, variant=variant, fl=fl):
@@ -523,6 +532,13 @@ def main():
                     nondet.append(key)
 
         run_batch(binary, world, variant, fl, seed, first, nd, max(1, w // 3), thorough, collect2)
+        if fl == "drd":
+            agg["drd_runs"] += local["runs"]
+            for lf in glob.glob(os.path.join(BUILD, "drd_logs", "*.log")):
+                try:
+                    os.remove(lf)
+                except OSError:
+                    pass
         per_world.append({"world": world, "variant": variant, "flavour": fl, "runs": local["runs"], "first_index": first, "wall_s": round(time.time() - t0, 2),
                           "determinism_rechecked": nd})
         first += n
@@ -643,7 +659,7 @@ def main():
         "C16": "one case = one generated well-typed program checked step by step against the exact integer model; distinct = distinct program hash; non-trivial = contains at least one DFT-space step",
         "C18": "one case = one generated program with every source operand mapped read-only for the duration of each call and objects frozen; distinct = distinct program hash; non-trivial = at least one read-only mapping was applied (or a concurrent world with frozen shared objects)",
     }[prop]
-    fault_kinds = {k: v for k, v in agg.items() if k.startswith(("fill_", "off", "ro_mappings", "exact_extent", "adjacent_buffers", "address_reuse", "fpenv_checks", "switches", "window_", "life_windows", "maskA=", "policy=", "start_state", "lock_waits", "fresh_twins", "cache_collisions", "repeats"))}
+    fault_kinds = {k: v for k, v in agg.items() if k.startswith(("fill_", "off", "ro_mappings", "exact_extent", "adjacent_buffers", "address_reuse", "fpenv_checks", "switches", "window_", "life_windows", "maskA=", "policy=", "start_state", "lock_waits", "fresh_twins", "cache_collisions", "repeats", "column_group", "drd_"))}
     evidence = {
         "property_id": prop,
         "tier": tier,
@@ -681,7 +697,10 @@ def main():
             "the host CPU has every feature the library dispatches on; masks can only hide features",
         ],
     }
-    json.dump(evidence, open(os.path.join(EVID, prop + ".json"), "w"), indent=1)
+    # evidence describes /repo's working tree; runs against another tree (seeded changes, --repo) leave it alone
+    evid_dir = EVID if os.path.realpath(repo) == "/repo" else os.path.join(VERIF, "build", "evidence_other")
+    os.makedirs(evid_dir, exist_ok=True)
+    json.dump(evidence, open(os.path.join(evid_dir, prop + ".json"), "w"), indent=1)
     print("%s %s: %d runs, %d distinct non-trivial, %d violation class(es), %d known, %.1fs" % (prop, tier, runs_done, len(nontrivial), len(violations), len(known_hits), wall))
     return exit_code
 
